@@ -80,6 +80,19 @@ func init() {
 				jobs = append(jobs, concJob("staleGet("+o+")‖Refresh/"+ex, cfg, []string{"set 1", "adv 50"}, [][]string{{"load 1 " + o}, {"refresh 1 val"}}, []string{"refresh-results", "refresh-readers", "audit"}, "native", 12, true, 4, 60, "refresh-results"))
 				jobs = append(jobs, concJob("Refresh("+o+")‖Refresh/"+ex, cfg, []string{"set 1"}, [][]string{{"refresh 1 " + o}, {"refresh 1 val"}}, []string{"refresh-results", "audit"}, "native", 12, true, 4, 60, "refresh-results"))
 				jobs = append(jobs, concJob("missGet("+o+")‖Refresh/"+ex, cfg, nil, [][]string{{"load 1 " + o}, {"refresh 1 val"}}, []string{"refresh-results", "audit"}, "native", 12, true, 4, 60, "refresh-results"))
+				// SetRefreshableAfter while the reload is in flight is not lost (whatever the reload's outcome)
+				for _, rf := range []string{"writing", "creating"} {
+					if o == "nf" {
+						continue // the entry is removed: nothing left to compare
+					}
+					if o == "val" && rf == "creating" {
+						continue // only the not-judged outcome (see checkDeadlineSetters)
+					}
+					scfg := cfg
+					scfg.Refresh = rf
+					jobs = append(jobs, concJob("staleGet("+o+")‖sra/"+rf+"/"+ex, scfg, []string{"set 1", "adv 50"}, [][]string{{"load 1 " + o}, {"sra 1 1000"}}, []string{"deadline-setters", "audit"}, "native", 2, false, 4, 60, "setters-during-flight"))
+					jobs = append(jobs, concJob("Refresh("+o+")‖sra/"+rf+"/"+ex, scfg, []string{"set 1"}, [][]string{{"refresh 1 " + o}, {"sra 1 1000"}}, []string{"deadline-setters", "audit"}, "native", 2, false, 4, 60, "setters-during-flight"))
+				}
 			}
 		}
 		return jobs
